@@ -398,7 +398,7 @@ def sc_single(cx, key, minimizer):
 
 
 # ------------------------------------------------------------------------------------------------
-def _shared_source(cx, mu, kind, axis, members):
+def _shared_source(cx, mu, kind, axis, members, tag="sh", name="shared"):
     """declare a shared source through the public MultiFit API; returns the oracle's block matrix S (n x n)"""
     n = mu.n
     ref = None
@@ -412,37 +412,37 @@ def _shared_source(cx, mu, kind, axis, members):
                 cx.assume(a == b)
     ax = dict(axis=axis) if axis is not None else {}
     if kind in ("SA", "SAv", "SR"):
-        rho = cx.real("sh_rho")
+        rho = cx.real(tag + "_rho")
         cx.assume(rho >= 0)
         cx.assume(rho <= 1)
         if kind == "SA":
-            e = cx.real("sh_e")
+            e = cx.real(tag + "_e")
             cx.assume(e >= 0)
-            mu.mf.add_error(e, fits=list(members), name="shared", correlation=rho, **ax)
+            mu.mf.add_error(e, fits=list(members), name=name, correlation=rho, **ax)
             sig = [e] * n
         else:
-            es = cx.reals("sh_e", n)
+            es = cx.reals(tag + "_e", n)
             for v in es:
                 cx.assume(v >= 0)
-            mu.mf.add_error(list(es), fits=list(members), name="shared", correlation=rho, relative=(kind == "SR"), **ax)
+            mu.mf.add_error(list(es), fits=list(members), name=name, correlation=rho, relative=(kind == "SR"), **ax)
             sig = [es[i] * ref[i] for i in range(n)] if kind == "SR" else list(es)
         return O.simple_cov(sig, rho)
     if kind in ("MC", "MCR"):
         from props.fitlib import symm
 
-        m = symm(cx, "sh_m", n)
+        m = symm(cx, tag + "_m", n)
         for i in range(n):
             cx.assume(m[i][i] >= 0)
-        mu.mf.add_matrix_error([list(r) for r in m], "cov", fits=list(members), name="shared", relative=(kind == "MCR"), **ax)
+        mu.mf.add_matrix_error([list(r) for r in m], "cov", fits=list(members), name=name, relative=(kind == "MCR"), **ax)
         return [[m[i][j] * (ref[i] * ref[j] if kind == "MCR" else 1) for j in range(n)] for i in range(n)]
     if kind == "MK":
         from props.fitlib import symm
 
-        cm = symm(cx, "sh_c", n, unit_diag=True)
-        es = cx.reals("sh_e", n)
+        cm = symm(cx, tag + "_c", n, unit_diag=True)
+        es = cx.reals(tag + "_e", n)
         for v in es:
             cx.assume(v >= 0)
-        mu.mf.add_matrix_error([list(r) for r in cm], "cor", fits=list(members), name="shared", err_val=list(es), **ax)
+        mu.mf.add_matrix_error([list(r) for r in cm], "cor", fits=list(members), name=name, err_val=list(es), **ax)
         return [[es[i] * es[j] * cm[i][j] for j in range(n)] for i in range(n)]
     raise ValueError(kind)
 
@@ -485,6 +485,9 @@ def sc_shared(cx, keys, kind, axis, members, variant="plain", n=2):
         mu.add_multi_constraint(mu.names[0])
     mu.set_point()
     S = _shared_source(cx, mu, kind, axis, members)
+    if variant == "two-sources":
+        # a second shared source on the same axis of the same members: the blocks add up
+        S = O.madd(S, _shared_source(cx, mu, "MC" if kind != "MC" else "SAv", axis, members, tag="sh2", name="shared2"))
     gauss, V, r = _joint(mu, S, axis or "y", members)
     for mn in O.leading_minors(V):
         cx.assume(mn > 0)
@@ -614,6 +617,8 @@ def scenarios(tier, seed):
         (["xyab", "xybc-k"], "SA", "y", [0, 1], "plain"),
         (["xyab", "xybc"], "SA", "y", [0, 1], "constraint-on-multi"),
         (["xyab", "xybc"], "SA", "y", [0, 1], "disable"),
+        (["xyab", "xybc"], "SA", "y", [0, 1], "two-sources"),
+        (["xyab", "xybc", "idba"], "SAv", "y", [0, 2], "two-sources"),
         (["hist", "xyab", "xybc"], "SAv", "y", [1, 2], "plain"),
         (["xyab", "xybc", "idba"], "SA", "y", [0, 2], "plain"),
         (["xyab", "xybc", "idba"], "MC", "y", [0, 1, 2], "plain"),
